@@ -2397,25 +2397,22 @@ class UnionArrayType(ContentType):
         return any(x.hasfield(key) for x in self.contenttypes)
 
     def getitem_at(self, viewtype):
-        if not all(isinstance(x, RecordArrayType) for x in self.contenttypes):
-            raise TypeError(
-                "union types cannot be accessed in Numba"
-                + ak._util.exception_suffix(__file__)
-            )
+        raise TypeError(
+            "union types cannot be accessed in Numba"
+            + ak._util.exception_suffix(__file__)
+        )
 
     def getitem_range(self, viewtype):
-        if not all(isinstance(x, RecordArrayType) for x in self.contenttypes):
-            raise TypeError(
-                "union types cannot be accessed in Numba"
-                + ak._util.exception_suffix(__file__)
-            )
+        raise TypeError(
+            "union types cannot be accessed in Numba"
+            + ak._util.exception_suffix(__file__)
+        )
 
     def getitem_field(self, viewtype, key):
-        if not all(isinstance(x, RecordArrayType) for x in self.contenttypes):
-            raise TypeError(
-                "union types cannot be accessed in Numba"
-                + ak._util.exception_suffix(__file__)
-            )
+        raise TypeError(
+            "union types cannot be accessed in Numba"
+            + ak._util.exception_suffix(__file__)
+        )
 
     def lower_getitem_at(
         self,
@@ -2454,7 +2451,7 @@ class UnionArrayType(ContentType):
             + ak._util.exception_suffix(__file__)
         )
 
-    def lower_getitem_field(self, context, builder, viewtype, viewval, viewproxy, key):
+    def lower_getitem_field(self, context, builder, viewtype, viewval, key):
         raise NotImplementedError(
             type(self).__name__
             + ".lower_getitem_field not implemented"
